@@ -96,7 +96,10 @@ def unwrap_label(label):
 SCHEMES = R.NAME_SCHEMES + ("emptyindex",)
 
 
-def check_tikz(O, S, leafmap, m, evs, labmode, scheme, colid, orient, stubspec=("hash", 5), reverse_mapping=False):
+WIDTHS = (18, 7, 30)      # the default wrap width, a narrow and a wide one (rotating over the cases of a process)
+
+
+def check_tikz(O, S, leafmap, m, evs, labmode, scheme, colid, orient, stubspec=("hash", 5), reverse_mapping=False, width=18):
     colours = dict(colour_menu(O))[colid]
     lab = None if labmode == "none" else R.labellings_for(O, labmode)
     if lab is not None and scheme != "plain":
@@ -105,7 +108,7 @@ def check_tikz(O, S, leafmap, m, evs, labmode, scheme, colid, orient, stubspec=(
     stubs.install(stubs.Stub(*stubspec))
     try:
         rec, onode, snode, on, sn = R.build_rec(O, S, leafmap, m, lab, scheme=scheme, colours=colours, reverse_mapping=reverse_mapping)
-        params = DrawParams(orientation=R.ORIENT[orient])
+        params = DrawParams(orientation=R.ORIENT[orient], event_label_width=width)
         before = (None if lab is None else {k: list(v) for k, v in rec.syntenies.items()}, dict(rec.object_species))
         lay = layout_mod.compute(rec, params)
         code = tikz_mod.render(rec, lay, params)
@@ -214,6 +217,13 @@ def check_tikz(O, S, leafmap, m, evs, labmode, scheme, colid, orient, stubspec=(
                     return ("label", f"node {v} displays {shown!r} -> {unwrap_label(shown)}, synteny is {fams}")
             if "_" in shown.replace("\\_", ""):
                 return ("label_escape", f"node {v} displays an unescaped underscore: {shown!r}")
+            if shown:
+                # the displayed label is the escaped families wrapped at the width of THIS drawing
+                esc = [reftext.escape(f) for f in fams]
+                words = [w + "," for w in esc[:-1]] + esc[-1:]
+                badw = reftext.check_wrap(words, width, shown.replace("\\\\", "\n"))
+                if badw:
+                    return ("label_wrap", f"node {v} displays {shown!r} at wrap width {width}: {badw}")
     # an empty transfer node is drawn with invisible content (\phantom{-}): that is still an empty label
     shown_in_text = sorted(("" if (n["kind"] == "horizontal gene transfer" and n["label"] == "\\phantom{-}") else n["label"])
                            for n in nodes if n["kind"] != "loss")
@@ -307,12 +317,13 @@ def run_shard(shard, tier, seed):
                 scheme = SCHEMES[(idx // 3 + ci) % 4]
                 orient = "VH"[(idx + ci) % 2]
                 rev = bool((idx // 2 + ci) % 2)      # mapping / synteny dicts written bottom-up on every other case
+                width = WIDTHS[(idx + 2 * ci) % 3]
                 n_eval += 1
                 if colid != "none" or scheme != "plain":
                     nt += 1
-                bad = check_tikz(O, S, leafmap, m, evs, labmode, scheme, colid, orient, reverse_mapping=rev)
+                bad = check_tikz(O, S, leafmap, m, evs, labmode, scheme, colid, orient, reverse_mapping=rev, width=width)
                 case = R.rec_case(osh, ssh, leafmap, m, mode="tikz", labelling=labmode, scheme=scheme, colours=colid, orientation=orient,
-                                  reverse_mapping=rev)
+                                  reverse_mapping=rev, width=width)
                 if bad:
                     vtotal += 1
                     if len(viols) < 6 and not any(v["subcheck"] == bad[0] for v in viols):
@@ -333,6 +344,6 @@ def replay(v):
     O, S, leafmap, m = R.rec_from_case(c)
     evs = dtl.events_of(O, S, leafmap, m)
     bad = check_tikz(O, S, leafmap, m, evs, c["labelling"], c["scheme"], c["colours"], c["orientation"],
-                     reverse_mapping=c.get("reverse_mapping", False))
+                     reverse_mapping=c.get("reverse_mapping", False), width=c.get("width", 18))
     stubs.restore()
     return {"violated": bool(bad), "detail": (bad[0] + ": " + bad[1]) if bad else None}
